@@ -466,7 +466,7 @@ def run(ctx):
     ctx.cov["fit_seconds"] = round(t_fit, 1)
     ctx.assumptions += [
         "L-BFGS-B contract (fun_val = f(params) <= f(x0)) - Section hypothesis, validated on every L-BFGS-B fit of the run",
-        "strict convexity of the objective proved for the scalar core only (loss_strictly_convex_partial); the jit-agreement bound uses 1-strong convexity of the full objective (mathematical fact, not a Coq theorem here)",
+        "strict and 1-strong convexity of the generated objective are theorems (C17_loss_strictly_convex, C17_loss_strongly_convex, thm/AConvexThm.v); the jit-agreement bound |z_a - z_b| <= |grad_a| + |grad_b| is their gradient form (monotone gradient), which is not restated in Coq",
         "optimiser quality, cross-process bit-reproducibility and jit agreement are run-time tests, not theorems",
     ]
 
